@@ -141,7 +141,9 @@
 (hy-repr-register [hy.models.String str hy.models.Bytes bytes] (fn [x]
   (setv r (.lstrip (_base-repr x) "ub"))
   (if (is-not None (getattr x "brackets" None))
-    f"#[{x.brackets}[{x}]{x.brackets}]"
+    ; The reader drops one newline at the start of a bracket string,
+    ; so a leading newline has to be doubled.
+    f"#[{x.brackets}[{(if (.startswith x "\n") "\n" "")}{x}]{x.brackets}]"
     (+
       (if (isinstance x bytes) "b" "")
       (if (.startswith "\"" r)
@@ -178,22 +180,40 @@
 
 (hy-repr-register
   hy.models.FComponent
-  (fn [x] (+
-    "{"
-    (hy-repr (get x 0))
-    (if x.conversion f" !{x.conversion}" "")
-    (if (> (len x) 1)
-      (+ " :" (if (isinstance (get x 1) hy.models.String)
-        (get x 1)
-        (hy-repr (get x 1))))
-      "")
-    "}")))
+  (fn [x]
+    (setv form (hy-repr (get x 0)))
+    (setv rest (+
+      (if x.conversion f" !{x.conversion}" "")
+      (if (> (len x) 1)
+        ; The format spec can have several components. Literal
+        ; parts are verbatim, but for `{`, which needs doubling.
+        (+ " :" #* (gfor
+          c (cut x 1 None)
+          (if (isinstance c hy.models.String)
+            (.replace (str c) "{" "{{")
+            (hy-repr c))))
+        "")))
+    (+
+      "{"
+      ; Keep a brace of the form itself (e.g., of a dictionary
+      ; literal) apart from the delimiters of the field, lest
+      ; `{{` or `}}` be read as an escaped brace.
+      (if (.startswith form "{") " " "")
+      form
+      (if (and (not rest) (.endswith form "}")) " " "")
+      rest
+      "}")))
 
 (hy-repr-register
   hy.models.FString
   (fn [fstring]
     (if (is-not None fstring.brackets)
       (+ "#[" fstring.brackets "["
+         (if (and fstring
+                  (isinstance (get fstring 0) hy.models.String)
+                  (.startswith (get fstring 0) "\n"))
+           "\n"
+           "")
          #* (lfor component fstring
                   (if (isinstance component hy.models.String)
                       (.replace (.replace (str component)
